@@ -34,12 +34,10 @@ type c11Leaf struct {
 	OwnTag   bool   // the leaf itself carries a dials tag
 	Derived  string // the name the leaf would have without its dialsenv tag
 	FlatName string // concatenation of the non-embedded Go field names on the path
-	// CapsJoin: some enclosing level's dials tag ends in an upper-case letter
-	// (e.g. MY_HOST, hostID); UpperHostile: an UPPER_SNAKE dials tag on the
-	// path contains a non-initialism word that starts with an initialism
-	// (IDLE, IDS).  Both only classify failures (root-cause keys).
-	CapsJoin     bool
-	UpperHostile bool
+	// CapsJoin: some enclosing level's camel-case dials tag ends in an
+	// upper-cased initialism (hostID, FileJSON).  Only used as a label and to
+	// give failures on such leaves a root-cause key.
+	CapsJoin bool
 }
 
 // embLeaf describes the fixed fields of the harness' embeddable struct types.
@@ -114,26 +112,10 @@ func c11Leaves(s shape.Shape, tagWords map[string][]string) ([]c11Leaf, error) {
 	return out, err
 }
 
-type c11Flags struct{ skipped, innerTag, embedded, capsJoin, upperHostile bool }
+type c11Flags struct{ skipped, innerTag, embedded, capsJoin bool }
 
 func endsUpper(s string) bool {
 	return s != "" && s[len(s)-1] >= 'A' && s[len(s)-1] <= 'Z'
-}
-
-var c11HostileUpperWords = []string{"idle", "ids", "urls", "vms"}
-
-func isUpperHostile(tag string) bool {
-	if tag != strings.ToUpper(tag) {
-		return false
-	}
-	for _, w := range strings.Split(tag, "_") {
-		for _, h := range c11HostileUpperWords {
-			if strings.ToLower(w) == h {
-				return true
-			}
-		}
-	}
-	return false
 }
 
 func c11Walk(fs []shape.Field, path, flat, words []string, depth int, fl c11Flags, tagWords map[string][]string, out *[]c11Leaf) error {
@@ -162,19 +144,18 @@ func c11Walk(fs []shape.Field, path, flat, words []string, depth int, fl c11Flag
 		if f.Kind != "embed" && f.Kind != "pembed" {
 			fn = append(append([]string{}, flat...), f.Name)
 		}
-		hostile := fl.upperHostile || (hasDials && isUpperHostile(dt))
 		switch f.Kind {
 		case "leaf", "skip":
 			l := c11Leaf{Path: strings.Join(p, "."), Type: f.Type, Depth: depth, Skipped: skipped || f.Kind == "skip", InnerTag: innerTag, Embedded: embedded}
 			l.Name = upperSnake(w)
 			l.OwnTag = hasDials
-			l.Derived, l.FlatName, l.CapsJoin, l.UpperHostile = l.Name, strings.Join(fn, ""), fl.capsJoin, hostile
+			l.Derived, l.FlatName, l.CapsJoin = l.Name, strings.Join(fn, ""), fl.capsJoin
 			if ev, ok := st.Lookup("dialsenv"); ok && ev != "" {
 				l.Name, l.EnvTag = ev, true
 			}
 			*out = append(*out, l)
 		case "struct", "pstruct":
-			nf := c11Flags{skipped, innerTag || hasDials, embedded, fl.capsJoin || (hasDials && endsUpper(dt)), hostile}
+			nf := c11Flags{skipped, innerTag || hasDials, embedded, fl.capsJoin || (hasDials && endsUpper(dt))}
 			if err := c11Walk(f.Fields, p, fn, w, depth+1, nf, tagWords, out); err != nil {
 				return err
 			}
@@ -191,7 +172,7 @@ func c11Walk(fs []shape.Field, path, flat, words []string, depth int, fl c11Flag
 					Depth: depth + 1 + strings.Count(e.path, "."), Skipped: skipped || e.skip,
 					InnerTag: innerTag || hasDials, Embedded: true,
 					Derived: upperSnake(ew), FlatName: strings.Join(fn, "") + strings.ReplaceAll(e.path, ".", ""),
-					CapsJoin: fl.capsJoin || (hasDials && endsUpper(dt)), UpperHostile: hostile,
+					CapsJoin: fl.capsJoin || (hasDials && endsUpper(dt)),
 				})
 			}
 		default:
